@@ -6,6 +6,7 @@ from engine import *
 from helpers import *
 
 NS = 1_000_000_000
+SEC_SHIFT = 20     # model time unit: 2^-20 s
 
 
 def now(ex):
@@ -146,20 +147,22 @@ def inherent(ex, ci, sb, meth, args, fn, dest_ty):
             if ex.branch(r.fields[1].v): return opt(None)
             return opt(Agg('Instant', None, [Cell(r.fields[0].v)]))
     if sb == 'Duration':
-        if meth in ('from_secs', 'from_millis', 'from_micros', 'from_nanos', 'from_mins', 'from_hours'):
-            mul = {'from_secs': NS, 'from_millis': 1_000_000, 'from_micros': 1000, 'from_nanos': 1, 'from_mins': 60 * NS, 'from_hours': 3600 * NS}[meth]
+        # model time unit: 1 second = 2^20 units (Instant/Duration are opaque to the code under test except
+        # through from_secs/from_mins/as_secs/+/-/comparisons, so any unit works; a power of two keeps the
+        # solver away from 64-bit multiplication and division by 10^9)
+        if meth in ('from_secs', 'from_mins', 'from_hours'):
+            mul = {'from_secs': 1, 'from_mins': 60, 'from_hours': 3600}[meth]
             x = ex.cast(a0, 'u64')
-            if isinstance(x.v, int): return dur(Int(x.v * mul, 'u64'))
-            # secs come from u32 TTLs in this code base: u32 * 1e9 < 2^62, no overflow
-            if a0.ty not in ('u32', 'u16', 'u8') and mul > 1000:
-                if ex.branch(z3.UGE(x.v, (1 << 64) // mul)): raise Unsupported('Duration overflow')
-            return dur(Int(z3.simplify(x.v * mul), 'u64'))
+            if isinstance(x.v, int): return dur(Int((x.v * mul) << SEC_SHIFT, 'u64'))
+            if a0.ty not in ('u32', 'u16', 'u8'):
+                if ex.branch(z3.UGE(x.v, (1 << (63 - SEC_SHIFT)) // mul)): raise Unsupported('Duration overflow')
+            return dur(Int(z3.simplify((x.v * mul if mul != 1 else x.v) << SEC_SHIFT), 'u64'))
+        if meth in ('from_millis', 'from_micros', 'from_nanos'):
+            raise Unsupported('sub-second Duration constructors are not representable in the 2^-20 s time model')
         d = ex.deref(a0)
-        if meth == 'as_secs': return ex.binop('Div', d.fields[0].v, Int(NS, 'u64'))
-        if meth == 'as_millis': return ex.cast(ex.binop('Div', d.fields[0].v, Int(1_000_000, 'u64')), 'u128')
-        if meth == 'as_nanos': return ex.cast(d.fields[0].v, 'u128')
-        if meth == 'subsec_nanos': return ex.cast(ex.binop('Rem', d.fields[0].v, Int(NS, 'u64')), 'u32')
+        if meth == 'as_secs': return ex.binop('Shr', d.fields[0].v, Int(SEC_SHIFT, 'u64'))
         if meth == 'is_zero': return seq(ex, d.fields[0].v, Int(0, 'u64'))
+        if meth in ('as_millis', 'as_nanos', 'subsec_nanos', 'as_secs_f64'): raise Unsupported('Duration::' + meth + ' in the 2^-20 s time model')
     # ------------------------------------------------------------------ tracing: no subscriber
     if 'tracing' in c or sb in ('DefaultCallsite', 'LevelFilter', 'Event', 'FieldSet', 'Span', 'Metadata', 'Interest', 'Callsite', 'Entered', 'EnteredSpan'):
         if meth in ('__is_enabled', 'is_never'): return meth == 'is_never'
@@ -189,16 +192,15 @@ def inherent(ex, ci, sb, meth, args, fn, dest_ty):
         if meth in ('pop', 'peek'):
             if not q.entries: return opt(None)
             # a maximum: pick entry i such that no other entry is strictly greater (ties: symbolic choice via forks)
-            best = None
+            maxima = []
             for i in range(len(q.entries)):
                 ismax = True
                 for j in range(len(q.entries)):
                     if i != j and scmp(ex, q.entries[j][1].v, q.entries[i][1].v) > 0: ismax = False; break
-                if ismax:
-                    if i == len(q.entries) - 1 or best is not None: best = i; break
-                    # tie-break nondeterministically among maxima
-                    if ex.branch(ex.fresh('pq_pick', 'bool')): best = i; break
-            if best is None: best = len(q.entries) - 1
+                if ismax: maxima.append(i)
+            best = maxima[-1]
+            for i in maxima[:-1]:      # ties: any maximum may be returned (nondeterministic choice)
+                if ex.branch(ex.fresh('pq_pick', 'bool')): best = i; break
             if meth == 'peek': return opt(tup(Ref(q.entries[best][0]), Ref(q.entries[best][1])))
             e = q.entries.pop(best); return opt(tup(e[0].v, e[1].v))
         if meth == 'iter': return Iter('pylist', vals=[tup(Ref(k), Ref(c_)) for k, c_ in q.entries], i=0)
